@@ -64,6 +64,9 @@ static bool cb_ref_event(uint64_t lp, uint64_t k, double *ts, uint32_t *type, ui
 }
 
 static unsigned long long step_budget;
+#ifdef SIM_MPI
+extern unsigned long long pmpi_shim_improbe_delays(void), pmpi_shim_test_delays(void);
+#endif
 
 static void *watchdog(void *arg)
 {
@@ -130,6 +133,16 @@ int main(int argc, char **argv)
 	variant = atoi(argv[8]);
 	const char *stats_prefix = argc > 9 ? argv[9] : NULL;
 	char desc[600];
+	/* under mpiexec every rank writes its own result file (the launcher would interleave the streams) */
+	const char *rank_env = getenv("OMPI_COMM_WORLD_RANK"), *out_env = getenv("VERIF_OUT");
+	if(rank_env && out_env) {
+		char fn[600];
+		snprintf(fn, sizeof(fn), "%s.%s", out_env, rank_env);
+		if(!freopen(fn, "w", stdout))
+			return 2;
+	}
+	if(stats_prefix && !strcmp(stats_prefix, "-"))
+		stats_prefix = NULL;
 
 	vm_generate(mseed, size_class);
 	global_config.prng_seed = mseed ^ 0x5EED;
@@ -146,6 +159,11 @@ int main(int argc, char **argv)
 	vm_env = &vm_core_env;
 	ref_run((uint64_t)VM.total_target * 30 + 20000, 4000, 3.0);
 	vm_describe(desc, sizeof(desc));
+	const char *wsz = getenv("OMPI_COMM_WORLD_SIZE");
+	if(wsz && (unsigned)atoi(wsz) > VM.n_lps) { /* more ranks than LPs: outside the stated domain */
+		printf("STAT models_rejected 1\nOK sim\n");
+		return 0;
+	}
 	if(!REF.all_terminate && variant < 2) {
 		printf("STAT models_rejected 1\nOK sim\n");
 		return 0;
@@ -164,6 +182,7 @@ int main(int argc, char **argv)
 	vh_cfg.monitors = true;
 	vh_cfg.poison = true;
 	vh_cfg.check_commit = true;
+	vh_cfg.monotone_predicates = true;
 	vh_cfg.digest_budget = 48 * 1024;
 	vh_cfg.state_digest = cb_state_digest;
 	vh_cfg.ref_event = cb_ref_event;
@@ -197,8 +216,11 @@ int main(int argc, char **argv)
 		if(vh_thread_last_gvt(t) > max_gvt)
 			max_gvt = vh_thread_last_gvt(t);
 
+	/* LPs hosted by this rank */
+	unsigned lp_lo = (unsigned)lid_node_first, lp_hi = (unsigned)(lid_node_first + n_lps_node);
+	printf("LPRANGE %d %d %u %u %u\n", nid, n_nodes, lp_lo, lp_hi, VM.n_lps);
 	/* ---- C08: LP_FINI exactly once per LP (the run returned, otherwise the watchdog would have ended the process) ---- */
-	for(unsigned i = 0; i < VM.n_lps; ++i) {
+	for(unsigned i = lp_lo; i < lp_hi; ++i) {
 		if(R[i].inits != 1)
 			vh_violation("C14", "lp-init-count", "model %s: LP %u received LP_INIT %d times", desc, i, R[i].inits);
 		if(R[i].finis != 1)
@@ -209,12 +231,12 @@ int main(int argc, char **argv)
 	/* ---- C01: frozen models observe exactly the sequential result (runs ended by predicates only) ---- */
 	unsigned long long c01_checked = 0;
 	if(variant == 0) {
-		for(unsigned i = 0; i < VM.n_lps; ++i) {
+		for(unsigned i = lp_lo; i < lp_hi; ++i) {
 			if(!R[i].finis)
 				continue;
 			c01_checked++;
 			if(R[i].fini_digest != REF.lp[i].pred_digest)
-				vh_violation("C01", "final-state-differs-from-sequential", "model %s threads=%u ckpt=%u gvt=%uus: LP %u state at LP_FINI (events counted %llu) differs from the sequential state at the point its predicate first held (after %lld events)",
+				vh_violation(n_nodes > 1 ? "C02" : "C01", "final-state-differs-from-sequential", "model %s threads=%u ckpt=%u gvt=%uus: LP %u state at LP_FINI (events counted %llu) differs from the sequential state at the point its predicate first held (after %lld events)",
 				    desc, threads, ckpt, gvt_us, i, (unsigned long long)R[i].fini_count, (long long)REF.lp[i].pred_pos);
 		}
 	}
@@ -222,7 +244,7 @@ int main(int argc, char **argv)
 	unsigned long long c07_checked = 0;
 	if(variant == 0 || variant == 1) {
 		int time_reached = variant == 1 && max_gvt >= term_time;
-		for(unsigned i = 0; i < VM.n_lps && !time_reached; ++i) {
+		for(unsigned i = lp_lo; i < lp_hi && !time_reached; ++i) {
 			c07_checked++;
 			if(!R[i].fini_pred)
 				vh_violation("C07", "ended-with-predicate-false", "model %s threads=%u: the run returned (final GVT %a, termination time %a) while LP %u does not satisfy its predicate (processed %llu of %u events)",
@@ -238,8 +260,11 @@ int main(int argc, char **argv)
 
 	/* ---- output ---- */
 	uint64_t res = mseed;
-	for(unsigned i = 0; i < VM.n_lps; ++i)
+	for(unsigned i = lp_lo; i < lp_hi; ++i) {
 		res = vmix(res, R[i].fini_digest);
+		if(variant == 0 && n_nodes > 1)
+			printf("LPD %u %016llx\n", i, (unsigned long long)R[i].fini_digest);
+	}
 	unsigned long long rb = vh_counter_total(VC_ROLLBACK), anti = vh_counter_total(VC_ANTI_LOCAL);
 	unsigned long long coast = vh_counter_total(VC_RB_COAST1) + vh_counter_total(VC_RB_COAST_MANY);
 	int nontrivial = rb > 0 && coast > 0 && anti > 0;
@@ -254,10 +279,15 @@ int main(int argc, char **argv)
 			printf("STAT %s %llu\n", vh_counter_name[c], vh_counter_total(c));
 	}
 	printf("STAT threads_effective_%u 1\n", eff_threads);
+	if(VM.sparse_lp >= 0 && (unsigned)VM.sparse_lp >= lp_lo && (unsigned)VM.sparse_lp < lp_hi)
+		printf("STAT sparse_lp_models 1\nSTAT sparse_lp_events_undone %u\nSTAT sparse_lp_models_with_undone_event %d\n", vh_lp_undone((uint64_t)VM.sparse_lp), vh_lp_undone((uint64_t)VM.sparse_lp) > 0);
 	if(nontrivial)
 		printf("SIG %016llx\n", (unsigned long long)vmix(vh_schedule_signature(), mseed));
-	if(variant == 0)
+	if(variant == 0 && n_nodes == 1)
 		printf("RESULT %llu %016llx\n", (unsigned long long)mseed, (unsigned long long)res);
+#ifdef SIM_MPI
+	printf("STAT mpi_improbe_delays_injected %llu\nSTAT mpi_test_delays_injected %llu\nSTAT ranks_%d 1\n", pmpi_shim_improbe_delays(), pmpi_shim_test_delays(), n_nodes);
+#endif
 	/* per-thread GVT windows for the statistics check (C20) */
 	for(unsigned t = 0; t < VH_MAXTHR; ++t) {
 		const struct vh_window *w;
